@@ -265,8 +265,8 @@ def execute_writer(case):
         for c in cuts:
             res.sub_evals += 1
             res.steps += 1
-            inside = any(sg['data_pos'] < c < sg['end'] for sg in segs)
-            boundary = any(c == sg['data_pos'] and sg['end'] > sg['data_pos'] for sg in segs)
+            inside = any(sg['data_pos'] <= c < sg['end'] for sg in segs)      # the first byte lost is a raw-data byte
+            boundary = False
             if inside:
                 res.nontrivial = True
             guaranteed = {}
